@@ -84,7 +84,8 @@ def judge(m, r, graph, trace, c, unique, ctx):
             fid = None
             if empty and model.only_edges and model.max_dist_init != float("inf"):
                 r0, y0, x0 = model.max_dist_init, trace[0][0], trace[0][1]
-                vis = [s for s in starts if abs(graph[s[0]][0][0] - y0) <= r0 and abs(graph[s[0]][0][1] - x0) <= r0]
+                # (a start node within rounding of a box side may fall on either side: the smaller visible set decides)
+                vis = [s for s in starts if abs(graph[s[0]][0][0] - y0) <= r0 - 1e-9 and abs(graph[s[0]][0][1] - x0) <= r0 - 1e-9]
                 if not vis:
                     fid = "D2"
             out.append((fid, f"match returned {r} but the admissible start candidates for the first observation are {starts}"))
